@@ -12,7 +12,9 @@
   Compile success and transcript identity are observed by tools/special.py (c16_special).
 -/
 import NB.Base
+import NB.Props.C11
 namespace NB
+open NB.Roots NB.IntVal
 
 /-- configurations as the CI script enumerates them -/
 structure FeatureSet where
@@ -33,5 +35,14 @@ def allFeatureSets : List FeatureSet :=
 
 /-- the documented configuration set has exactly the 20 members the check enumerates -/
 theorem documented_count : (allFeatureSets.filter (fun f => decide f.Documented)).length = 20 := by decide
+
+/-- the only feature-conditional *computation* that can influence a result: the initial guess of the
+    root iteration.  With `std` the guess comes from an f64 evaluation (any evaluator satisfying
+    `F64.Valid`), without it from the bit length; the three root functions return the same outcome
+    in both configurations, for every operand and degree (restated from C11). -/
+theorem roots_same_in_std_and_no_std {Fl : F64} (hF : Fl.Valid) (d x n : Nat) (hd : 2 ≤ d) :
+    nthRootG (stdSrc Fl d) x n = nthRootG nostdSrc x n ∧ sqrtG (stdSrc Fl d) x = sqrtG nostdSrc x ∧
+    cbrtG (stdSrc Fl d) x = cbrtG nostdSrc x :=
+  root_config_independent hF d x n hd
 
 end NB
